@@ -120,7 +120,7 @@ type EditSpace struct {
 }
 
 func (s EditSpace) Name() string { return s.Label }
-func (s EditSpace) Count() int64  { return int64(len(s.Bases)) }
+func (s EditSpace) Count() int64 { return int64(len(s.Bases)) }
 
 func runeBounds(t string) []int {
 	var b []int
